@@ -72,6 +72,7 @@ type AtCall struct {
 	Callee string
 	Clause *Clause
 	Assume bool
+	Set    *GhostSet // `atcall <callee> set ghost = expr`: ghost assignment right before the call
 }
 
 // GhostSet is a ghost assignment executed at every return of the function
@@ -674,11 +675,27 @@ func parseFuncSub(fs *FuncSpec, d rawDirective, path string) error {
 		fs.LockHeld = append(fs.LockHeld, strings.TrimSpace(d.text))
 	case "atcall":
 		f := strings.Fields(d.text)
-		if len(f) < 3 || (f[1] != "assert" && f[1] != "assume") {
-			return fmt.Errorf("%s: atcall <callee> assert|assume <clause>", where)
+		if len(f) < 3 || (f[1] != "assert" && f[1] != "assume" && f[1] != "set") {
+			return fmt.Errorf("%s: atcall <callee> assert|assume <clause> / set ghost = expr", where)
 		}
 		rest := strings.TrimSpace(strings.TrimPrefix(strings.TrimSpace(d.text), f[0]))
 		rest = strings.TrimSpace(strings.TrimPrefix(rest, f[1]))
+		if f[1] == "set" {
+			j := strings.Index(rest, "=")
+			if j < 0 {
+				return fmt.Errorf("%s: atcall <callee> set ghost = expr", where)
+			}
+			te, err := parseSpecExpr(strings.TrimSpace(rest[:j]))
+			if err != nil {
+				return fmt.Errorf("%s: %v", where, err)
+			}
+			ve, err := parseSpecExpr(strings.TrimSpace(rest[j+1:]))
+			if err != nil {
+				return fmt.Errorf("%s: %v", where, err)
+			}
+			fs.AtCalls = append(fs.AtCalls, &AtCall{Callee: f[0], Set: &GhostSet{Target: te, Value: ve, Src: rest, File: path, Line: d.line}})
+			break
+		}
 		cl, err := parseClause(rest, path, d.line)
 		if err != nil {
 			return err
